@@ -28,8 +28,10 @@ POOL = [
     ('msg', '[1000.760] wl_display@1.delete_id2(3, nil, wl_display@1)', 'delete_id2'),
     ('msg', '[1000.770]  -> zz_unknown_iface@7.make(new id [unknown]@44, 1)', 'make'),             # an untyped new id outside wl_registry.bind
     ('msg', '[1000.780]  -> zz_unknown_iface@7.set_title("")', 'set_title'),                       # a message the connection-naming code chokes on
+    ('msg', '[1000.790] zz_unknown_iface@4294967295.poke(zz_unknown_iface@4294967295, 4294967295, -2147483648)', 'poke'),   # the last valid id and the integer extremes
     ('text', 'hello from the program', None),
     ('text', 'C:\\dir\\x "q" \'s\' tab\tin \x07 bell \x1b[1m esc', None),     # backslashes, quotes, inner tab, control characters: passed through unaltered
+    ('text', 'form\x0cfeed, vertical\x0btab, next\x85line, line\u2028separator, file\x1cseparator and a\rcarriage return inside', None),   # one line, whatever str.splitlines thinks
     ('text', '', None),
     ('text', '   \t ', None),
     ('text', '  indented chatter [not a message] (really)  ', None),
